@@ -61,6 +61,16 @@ Require Import GenPrelude FromTransformers Ctx FutTransform FutTransformProofs.
 Theorem C06_transformer_commutes_with_instantiation : forall (A B : Type) (f : A -> B) (r : frule A),
   transform_rule B (map_frule A B f r) = option_map (map_tres A B f) (transform_rule A r).
 Proof. exact transform_rule_natural. Qed.
+(* the arguments of atoms inside body formulas (Model/Symbols.v, compared with create_symbol of /repo on the theory terms gringo delivers): a variable
+   bound to the symbol s - a number of either sign, a string with any escape sequences, a constant, a function term, a classically negated one, a
+   tuple, #inf / #sup, nested - stands inside the formula for s itself: create_symbol undoes the way the symbol is written into the theory term *)
+Require Import String Symbols SymbolsProofs.
+Theorem C06_variables_in_formulas_denote_their_bindings : forall s : sym, wfs s = true -> create_symbol (encode s) = Some s.
+Proof. exact create_symbol_undoes_the_encoding. Qed.
+Theorem C06_strings_keep_their_text : forall s : string, unquote (quote s) = s.
+Proof. exact unquote_quote. Qed.
+Print Assumptions C06_variables_in_formulas_denote_their_bindings.
+Print Assumptions C06_strings_keep_their_text.
 Print Assumptions C06_transformer_commutes_with_instantiation.
 Print Assumptions C06_rewrite_commutes_with_instantiation.
 Print Assumptions C06_elements_mean_conjunction_of_implications.
